@@ -143,6 +143,16 @@ func HostileBytes(r *Rng, forKey bool) []byte {
 		b = append(b, le32(uint32(r.Pick(0, 28, 60, 200, 1<<20)))...)
 		return b
 	case 4:
+		if r.Chance(1, 2) {
+			// footer begin with an arbitrary "version" word and length
+			b := append([]byte{}, magicB...)
+			b = append(b, le32(uint32(r.Pick(0, 3, 5, 0x30303030, 0xffffffff)))...)
+			b = append(b, le32(uint32(r.Pick(0, 40, 4096, 1<<30)))...)
+			for i := r.Intn(12); i > 0; i-- {
+				b = append(b, byte('a'+r.Intn(26)))
+			}
+			return b
+		}
 		return append([]byte{}, magicE...)
 	case 5: // header look-alike
 		return []byte("moss-data-store:\n{\"Version\":4}\n")
